@@ -339,12 +339,20 @@ def run(ctx, col: Collector):
         col.check(len(news) == 1, 'C11-fresh', 'build_database:new-database', 'every parse builds into a new Database()',
                   'build_database does not create a new Database for this parse', node=bd.node, file=bd.file)
         # PyDBML.parse / parse_file create a new parser per call
+        creates: Dict[str, bool] = {}
         for fname in ('PyDBML.parse', 'PyDBML.parse_file'):
             from ..inline import inlined_info
             fi = inlined_info(idx, idx.func('pydbml.parser.parser', fname), depth=2, keep={'remove_bom', 'parse', 'parse_file'})
             news = [n for n in walk_no_nested(fi.node) if isinstance(n, ast.Call) and norm(n.func) == 'PyDBMLParser']
+            # the other route of the same class, called on the class itself: `return PyDBML.parse(text)`
+            via = [c.func.attr for c in walk_no_nested(fi.node) if isinstance(c, ast.Call) and isinstance(c.func, ast.Attribute) and norm(c.func.value) in ('cls', 'PyDBML')
+                   and f'PyDBML.{c.func.attr}' != fname and creates.get(f'PyDBML.{c.func.attr}')]
+            creates[fname] = bool(news)
             if news:
                 col.ok('C11-fresh', f'{fname}:new-parser', 'a new PyDBMLParser per call', node=fi.node, file=fi.file)
+            elif via:
+                creates[fname] = True
+                col.ok('C11-fresh', f'{fname}:new-parser', f'parses through PyDBML.{via[0]}, which creates a new PyDBMLParser per call', node=fi.node, file=fi.file)
             else:
                 # delegation to something this rule did not read is no evidence; a `.parse()` on a name that is not created in the call is
                 calls_out = [c for c in walk_no_nested(fi.node) if isinstance(c, ast.Call) and isinstance(c.func, ast.Name) and idx.resolve(fi.module, c.func.id) is not None
